@@ -5,6 +5,7 @@ import (
 	"errors"
 	"fmt"
 	"github.com/hneemann/iterator"
+	"github.com/hneemann/parser2"
 	"github.com/hneemann/parser2/funcGen"
 	"github.com/hneemann/parser2/listMap"
 	"math"
@@ -302,9 +303,11 @@ func (l *List) Accept(sta funcGen.Stack[Value]) (*List, error) {
 	return NewListFromIterable(func(st funcGen.Stack[Value]) iterator.Producer[Value] {
 		// The source may be evaluated concurrently to the consumer of this list if
 		// the filter is run in parallel, so it gets its own stack.
-		return iterator.FilterAuto[Value](l.iterable(st.Derive()), func() func(v Value) (bool, error) {
+		return panicTransport(iterator.FilterAuto[Value](l.iterable(st.Derive()), func() func(v Value) (bool, error) {
 			s := st.Derive()
-			return func(v Value) (bool, error) {
+			return func(v Value) (accept bool, err error) {
+				// may be called on a worker goroutine
+				defer recoverToError(&err)
 				eval, err := f.Eval(s, v)
 				if err != nil {
 					return false, err
@@ -314,7 +317,7 @@ func (l *List) Accept(sta funcGen.Stack[Value]) (*List, error) {
 				}
 				return false, fmt.Errorf("function in accept does not return a bool")
 			}
-		})
+		}))
 	}), nil
 }
 
@@ -326,13 +329,60 @@ func (l *List) Map(sta funcGen.Stack[Value]) (*List, error) {
 	return NewListFromSizedIterable(func(st funcGen.Stack[Value]) iterator.Producer[Value] {
 		// The source may be evaluated concurrently to the consumer of this list if
 		// the mapping is run in parallel, so it gets its own stack.
-		return iterator.MapAuto[Value, Value](l.iterable(st.Derive()), func() func(i int, v Value) (Value, error) {
+		return panicTransport(iterator.MapAuto[Value, Value](l.iterable(st.Derive()), func() func(i int, v Value) (Value, error) {
 			s := st.Derive()
-			return func(i int, v Value) (Value, error) {
+			return func(i int, v Value) (val Value, err error) {
+				// may be called on a worker goroutine
+				defer recoverToError(&err)
 				return f.Eval(s, v)
 			}
-		})
+		}))
 	}, l.size), nil
+}
+
+// recoverToError is to be deferred in functions which are called on goroutines
+// started by the iterator package. A panic raised there would terminate the
+// whole process, so it is turned into an error.
+func recoverToError(err *error) {
+	if rec := recover(); rec != nil {
+		*err = parser2.AnyToError(rec)
+	}
+}
+
+// panicTransport wraps a producer whose consumer is possibly called on a
+// goroutine started by the iterator package (parallel map and accept). A panic
+// raised by the consumer stops the iteration and is raised again on the
+// goroutine which started the iteration.
+func panicTransport(p iterator.Producer[Value]) iterator.Producer[Value] {
+	return func(yield iterator.Consumer[Value]) {
+		var raised any
+		p(func(v Value, err error) (cont bool) {
+			defer func() {
+				if rec := recover(); rec != nil {
+					raised = rec
+					cont = false
+				}
+			}()
+			return yield(v, err)
+		})
+		if raised != nil {
+			panic(raised)
+		}
+	}
+}
+
+// recoveringProducer wraps a producer which is run in a goroutine of its own
+// (see iterator.ToChan). A panic raised while producing is sent to the
+// consumer as an error.
+func recoveringProducer(p iterator.Producer[Value]) iterator.Producer[Value] {
+	return func(yield iterator.Consumer[Value]) {
+		defer func() {
+			if rec := recover(); rec != nil {
+				yield(nil, parser2.AnyToError(rec))
+			}
+		}()
+		p(yield)
+	}
 }
 
 func (l *List) Compact(sta funcGen.Stack[Value]) (*List, error) {
@@ -407,7 +457,7 @@ func (l *List) Merge(sta funcGen.Stack[Value]) (*List, error) {
 	if otherList, ok := other.ToList(); ok {
 		return NewListFromIterable(func(st funcGen.Stack[Value]) iterator.Producer[Value] {
 			// both sources are evaluated in their own goroutines, so they get their own stacks
-			return iterator.Merge(l.iterable(st.Derive()), otherList.iterable(st.Derive()),
+			return iterator.Merge(recoveringProducer(l.iterable(st.Derive())), recoveringProducer(otherList.iterable(st.Derive())),
 				func(a, b Value) (bool, error) {
 					st.Push(a)
 					st.Push(b)
